@@ -23,6 +23,9 @@ VERIF = os.path.dirname(HERE)
 sys.path.insert(0, HERE)
 
 import core  # noqa: E402
+import simos  # noqa: E402
+
+simos.install_hooks()  # before anything imports cogent3
 
 # property -> list of engine modules
 ENGINES = {
@@ -178,7 +181,7 @@ def run_engine(prop, engine_name, tier, seed, nshards, overrides):
         max_runs = overrides["runs"]
     if overrides.get("budget"):
         budget = overrides["budget"]
-    scratch = os.path.join(core_scratch(), f"verif-run-{os.getpid()}-{engine_name}")
+    scratch = os.path.join(core_scratch(), f"verif-run-{simos._real_getpid()}-{engine_name}")
     os.makedirs(scratch, exist_ok=True)
     procs = []
     for s in range(nshards):
